@@ -87,3 +87,13 @@ Definition flat (o: option (option uv)) : option uv := match o with Some r => r 
 Definition lecase_ok_model (c: lecase) : bool := ouv_eqb (flat (lit_enc (fun _ => le_benc c) (le_lits c) (le_v c))) (le_obs c).
 Definition lecase_ok_ref (c: lecase) : bool := ouv_eqb (flat (ref_lit_enc (fun _ => le_benc c) (le_lits c) (le_v c))) (le_ref c).
 Definition lecase_ok (c: lecase) : bool := lecase_ok_model c && lecase_ok_ref c && lit_nofloat (le_lits c).
+
+(* ---------- TypeVar positions ---------- *)
+Record tvcase := TVC {
+  tv_cs : list cmember;      (* constraints (empty: unconstrained) *)
+  tv_fb : option uv;         (* unpacker of the default / bound on this input *)
+  tv_d : uv;
+  tv_obs : option uv
+}.
+Definition tvcase_ok (c: tvcase) : bool :=
+  ouv_eqb (typevar_dec (co_of (tv_cs c)) (map to_member (tv_cs c)) (fun _ => tv_fb c) (tv_d c)) (tv_obs c).
